@@ -557,8 +557,12 @@ func main() {
 	budgets := []int64{0, 0, 1, 7, 50, 300, -1}
 	depths := []int64{0, 0, 1, 2, 4}
 	preallocs := []int64{0, 0, 1, 16, 1 << 40}
+	wides := []int{13, 25, 257, 1023, 1024, 1025, 1100}
 	for i := 0; i < n; i++ {
 		v := rng.GenVal(cfg, 0)
+		if i < 2*len(wides) { // wide containers first: depth / budget bookkeeping must not depend on sibling position
+			v = rng.GenWide(cfg, i%2, wides[i/2])
+		}
 		co := cborOpts{strict: rng.Intn(4) > 0, links: rng.Intn(5) > 0, beyond: rng.Intn(6) == 0,
 			budget: budgets[rng.Intn(len(budgets))], depth: depths[rng.Intn(len(depths))], prealloc: preallocs[rng.Intn(len(preallocs))]}
 		cb := encodeCbor(v, rng, []int{0, 5, 15}[rng.Intn(3)])
